@@ -250,3 +250,132 @@ def mpi_from_str_concrete(p, m):
     if ok:
         ok, d = _concrete_contains(r2, pts, 0, prec)
     return ok, 'iv.mpf(%r) at prec %d: %s' % (lit[:120], prec, d)
+
+
+# ------------------------------------------------------------------------------ to_str numeric core (C08)
+def _parse_sstr(val):
+    """-> (neg, [(digit value (int/SInt), decimal weight)], first_sig_weight) of a printed literal (SStr or str)"""
+    from pysym.values import SStr
+    chars = val.chars if isinstance(val, SStr) else list(val)
+    neg = False
+    if chars and chars[0] == '-':
+        neg, chars = True, chars[1:]
+    elif chars and chars[0] == '+':
+        chars = chars[1:]
+    E = 0
+    if 'e' in chars:
+        k = chars.index('e')
+        es = chars[k + 1:]
+        if not all(isinstance(c, str) for c in es):
+            raise Unsupported('symbolic exponent digits')
+        E = int(''.join(es))
+        chars = chars[:k]
+    if '.' in chars:
+        pt = chars.index('.')
+        ip, fp = chars[:pt], chars[pt + 1:]
+    else:
+        ip, fp = chars, []
+    digs = []
+    for j, c in enumerate(ip):
+        digs.append((c, len(ip) - 1 - j + E))
+    for j, c in enumerate(fp):
+        digs.append((c, -(j + 1) + E))
+    out = []
+    first = None
+    for c, w in digs:
+        if isinstance(c, str):
+            if not c.isdigit():
+                raise Unsupported('unexpected character %r in printed number' % c)
+            d = int(c)
+            nz = d != 0
+        else:
+            d = c
+            lo = d.lo if isinstance(d, SInt) else d
+            nz = lo >= 1
+            if first is None and not nz and isinstance(d, SInt):
+                raise Unsupported('leading printed digit not provably nonzero')
+        if first is None and nz:
+            first = w
+        out.append((d, w))
+    return neg, out, first
+
+
+def to_str_num(p):
+    """to_str(x, dps) (the core of str(), nstr() and repr()) for x = +-man * 2**exp with exp concrete: the printed literal's
+    value is a nearest dps-significant-digit decimal of x (either neighbour on an exact tie), sign and syntax are right."""
+    bc, exp, dps, sign = p['bc'], p['exp'], p['dps'], p.get('sign', 0)
+    import math
+    L = libmpf()
+    bitprec = int((dps + 3) * math.log(10, 2)) + 10
+    fixprec = max(bitprec - exp - bc, 0)
+    W0 = bc + max(exp, 0) + 2 * fixprec + 4 * (dps + 6) + 120
+    ob = Ob(wbump(p, W0), timeout_s=p.get('_t', 60), mul_precise_bits=4096, max_unroll=40)
+    ob.eng.no_merge_names |= {'i', 'exponent', 'split', 'digits'}
+    G.stats['_keep_concrete_ints'] = True
+    x = ob.mpf('x', bc, exp=exp, sign=sign)
+    kwargs = dict(p.get('opts', {}))
+    outs = ob.run(L.to_str, [x, dps], kwargs)
+    man = zt(x[1])
+    weak = p.get('_known') == 'F6'
+
+    def good(val, st):
+        from pysym.values import SStr
+        if not isinstance(val, (SStr, str)):
+            return False
+        neg, digs, first = _parse_sstr(val)
+        if first is None:
+            return False            # printed zero for a nonzero number
+        q = first - dps + 1
+        wmin = min([w for _, w in digs] + [q])
+        s10 = max(-wmin, 0)
+        s2 = max(-exp, 0)
+        # V * 10^s10 as an integer
+        Vt = B(0)
+        for d, w in digs:
+            if isinstance(d, int) and d == 0:
+                continue
+            Vt = Vt + zt(d) * B(10 ** (w + s10))
+        Xt = (man << (exp + s2)) * B(10 ** s10)          # x * 2^s2 * 10^s10
+        Vs = Vt << s2
+        diff = z3.If(z3.UGE(Xt, Vs), Xt - Vs, Vs - Xt)
+        unit = B((10 ** (q + s10)) << s2)                # 10^q at the same scale
+        sign_ok = z3.BoolVal(neg == bool(sign))
+        # no significant digit beyond the dps-th
+        tail_ok = z3.And([zt(d) == B(0) for d, w in digs if w < q] + [z3.BoolVal(True)])
+        if weak:
+            return [sign_ok, tail_ok, z3.ULT(diff, unit)]
+        return [sign_ok, tail_ok, z3.ULE(diff << 1, unit)]
+    return finish(ob, ob.prove(outs, good))
+
+
+def to_str_num_concrete(p, m):
+    from decimal import Decimal
+    L = libmpf()
+    bc, exp, dps, sign = p['bc'], p['exp'], p['dps'], p.get('sign', 0)
+    x = mk_tuple(m, 'x', bc, exp=exp, sign=sign)
+    s = L.to_str(x, dps, **dict(p.get('opts', {})))
+    xv = O.frac_of(x)
+    try:
+        float(s)
+        d = Decimal(s)
+    except Exception as e:
+        return False, 'to_str(%r, %d) = %r is not a parseable literal (%r)' % (x, dps, s, e)
+    v = Fraction(d)
+    if (v < 0) != (xv < 0) or v == 0:
+        return False, 'to_str(%r, %d) = %r has the wrong sign / is zero' % (x, dps, s)
+    # exponent of the leading significant digit of the printed value
+    t = d.as_tuple()
+    digits = list(t.digits)
+    while len(digits) > 1 and digits[0] == 0:
+        digits.pop(0)
+    lead = len(digits) - 1 + t.exponent
+    q = lead - dps + 1
+    unit = Fraction(10) ** q
+    if (v / unit).denominator != 1:
+        return False, 'to_str(%r, %d) = %r has more than %d significant digits' % (x, dps, s, dps)
+    diff = abs(xv - v)
+    if p.get('_known') == 'F6':
+        ok = diff < unit
+        return ok, 'to_str(%r, %d) = %r is a full unit in the last place (or more) away from x = %s' % (x, dps, s, xv)
+    ok = 2 * diff <= unit
+    return ok, 'to_str(%r, %d) = %r is not a nearest %d-digit decimal of x (|x - printed| = %s units in the last place)' % (x, dps, s, dps, float(diff / unit))
